@@ -736,6 +736,93 @@ def stratum_concurrent(chk, lines):
     chk.extra["concurrent_first_query_schedules"] = n
 
 
+def stratum_function_replaced(chk, rng, n):
+    """the matching function of a role manager is REPLACED (add_matching_func again, add_named_matching_func on an
+    Enforcer, a filtered reload that re-creates the managers): afterwards every answer must be that of a manager that
+    had the new function and the same assignments from the start.  SPEC = differential against a fresh manager."""
+    from casbin.rbac import default_role_manager
+    from casbin.util import key_match2_func, key_match3_func, key_match_func
+    funcs = [("key_match2", key_match2_func), ("key_match3", key_match3_func), ("key_match", key_match_func)]
+    pats = ["/book/:id", "/book/{id}", "/book/*", "/pen/:id"]
+    conc = ["/book/1", "/book/2", "/pen/1", "alice"]
+    roles = ["book_group", "pen_group", "admin"]
+    cnt = 0
+    for _ in range(n):
+        (n1, f1), (n2, f2) = rng.sample(funcs, 2)
+        links, seen = [], set()
+        for _k in range(rng.randint(1, 5)):
+            l = (rng.choice(pats + conc[:2]), rng.choice(roles))
+            if l not in seen:
+                seen.add(l)
+                links.append(l)
+        early = [(rng.choice(conc), rng.choice(roles)) for _k in range(rng.randint(0, 4))]
+        late = [(c, r) for c in conc for r in roles]
+        rm = default_role_manager.RoleManager(10)
+        rm.add_matching_func(f1)
+        for l in links:
+            rm.add_link(*l)
+        for q in early:
+            rm.has_link(*q)                       # names first seen (and memoised) under the OLD function
+        rm.add_matching_func(f2)
+        got = [bool(rm.has_link(*q)) for q in late]
+        fresh = default_role_manager.RoleManager(10)
+        fresh.add_matching_func(f2)
+        for l in links:
+            fresh.add_link(*l)
+        want = [bool(fresh.has_link(*q)) for q in late]
+        cnt += 1
+        chk.count(("function-replaced", n1, n2, repr(links), repr(early)))
+        if got != want:
+            bad = [(q, g, w) for q, g, w in zip(late, got, want) if g != w][:3]
+            chk.spec_fail(dict(stratum="matching-function-replaced", first=n1, then=n2, links=links, queried_before_the_switch=early),
+                          dict(differences=[dict(query=list(q), answer=g, fresh_manager=w) for q, g, w in bad]), "the fresh manager's answers",
+                          "after the matching function was replaced an answer differs from a manager that had the new function from the start")
+            break
+    chk.extra["function_replaced_cases"] = cnt
+
+
+def stratum_enforcer_reload_keeps_function(chk):
+    """a matching function registered through the Enforcer must survive every kind of reload: load_policy,
+    load_filtered_policy (which re-initialises the role managers), build_role_links"""
+    import casbin
+    from casbin.persist.adapters import FilteredFileAdapter
+    from casbin.persist.adapters.filtered_file_adapter import Filter
+    from casbin.util import key_match2_func
+    import os
+    import tempfile
+    model = ("[request_definition]\nr = sub, obj, act\n[policy_definition]\np = sub, obj, act\n[role_definition]\ng = _, _\ng2 = _, _\n"
+             "[policy_effect]\ne = some(where (p.eft == allow))\n[matchers]\nm = g(r.sub, p.sub) && g2(r.obj, p.obj) && r.act == p.act\n")
+    text = "p, alice, book_group, GET\np, bob, pen_group, GET\ng2, /book/:id, book_group\ng2, /pen/:id, pen_group\n"
+    reqs = [("alice", "/book/1", "GET"), ("alice", "/pen/1", "GET"), ("bob", "/pen/7", "GET"), ("bob", "/book/7", "GET")]
+    want = [True, False, True, False]
+    n = 0
+    with tempfile.TemporaryDirectory(prefix="c14_") as d:
+        path = os.path.join(d, "policy.csv")
+        with open(path, "w") as f:
+            f.write(text)
+        for steps in (["load_policy"], ["load_filtered_policy"], ["load_filtered_policy", "load_policy"], ["build_role_links"],
+                      ["load_policy", "load_filtered_policy"]):
+            e = casbin.Enforcer(casbin.Enforcer.new_model(text=model), FilteredFileAdapter(path))
+            e.load_policy()
+            e.add_named_matching_func("g2", key_match2_func)
+            for st in steps:
+                if st == "load_filtered_policy":
+                    flt = Filter()
+                    flt.P, flt.G = [], []           # g2 lines are never filtered; an all-blank filter loads everything
+                    flt.P = ["", "", "GET"]
+                    e.load_filtered_policy(flt)
+                else:
+                    getattr(e, st)()
+            got = [bool(e.enforce(*r)) for r in reqs]
+            n += 1
+            chk.count(("enforcer-reload-keeps-function", tuple(steps)))
+            if got != want:
+                chk.spec_fail(dict(stratum="enforcer-reload-keeps-function", model=model, policy=text, steps_after_registration=steps),
+                              dict(decisions=dict(zip(map(str, reqs), got))), dict(zip(map(str, reqs), want)),
+                              "after a reload the registered matching function is no longer applied to the pattern assignments")
+    chk.extra["enforcer_reload_cases"] = n
+
+
 def run(chk, tier):
     rng = chk.rng
     thorough = tier == "thorough"
@@ -763,6 +850,8 @@ def run(chk, tier):
     feed(gen_random(rng, 15000 if thorough else 2000, ["rm", "dm", "dm"], tie_only=True))
     spec_tie(chk, rng, 3000 if thorough else 500)
     stratum_concurrent(chk, lines=thorough)
+    stratum_function_replaced(chk, rng, 3000 if thorough else 300)
+    stratum_enforcer_reload_keeps_function(chk)
     chk.exhaustive = True
     chk.extra["strata"] = state["strata"]
     chk.extra["histories_per_manager"] = state["kinds"]
